@@ -621,4 +621,82 @@ func c12PreScenario(c *core.Ctx) {
 		c.NonTrivial(fpf("pre|%d|%s|%v|%d", place, k, in, len(inner.Mods)))
 	}
 	c.Count("preprocess_scenarios", 1)
+	c12PreValidate(c, k)
+}
+
+// c12PreValidate: in Validate the preprocess function receives the pointer to the value being validated; its result
+// replaces the value; an error becomes one issue and skips the wrapped schema.
+func c12PreValidate(c *core.Ctx, k spec.Kind) {
+	zero := map[spec.Kind]any{spec.String: "", spec.Int: 0, spec.Float64: 0.0, spec.Bool: false}[k]
+	start := map[spec.Kind]any{spec.String: "start", spec.Int: 5, spec.Float64: 2.5, spec.Bool: true}[k]
+	witness := map[spec.Kind]any{spec.String: "pre-ok", spec.Int: 41, spec.Float64: 4.5, spec.Bool: true}[k]
+	_ = zero
+	for _, fail := range []bool{false, true} {
+		for _, place := range []int{0, 1} {
+			inner := &spec.Node{Kind: k, Tests: []spec.Test{{Op: spec.TCustom, PredName: "rec", Pred: func(any) bool { return true }}}}
+			failErr := errors.New("preprocess refuses in validate")
+			var gotArg any
+			pre := &spec.Node{Kind: spec.Pre, Elem: inner, PreName: "validate-pre", PreFn: func(d any) (any, error) {
+				gotArg = d
+				if fail {
+					return nil, failErr
+				}
+				return witness, nil
+			}}
+			root := pre
+			var val any = start
+			path := ""
+			if place == 1 {
+				root = structOf("p", pre)
+				val = map[string]any{"P": start}
+				path = "p"
+			}
+			root.Number()
+			rec := &cbRecorder{keys: c12KeyUniverse}
+			b := spec.Build(root, rec.hooks(c.R))
+			out := run.Validate(b, val, z.WithCtxValue("k1", "v-pre"))
+			c.Eval(1)
+			det := func(extra map[string]any) map[string]any {
+				extra["issues"] = issuesText(out)
+				extra["preprocess_fails"] = fail
+				return describeCase(root, ref.Validate, val, extra)
+			}
+			if out.Panicked {
+				c.Violation("panic|"+panicKind(out.Panic), det(map[string]any{"panic": trunc(fmt.Sprint(out.Panic), 300)}))
+				return
+			}
+			// the argument must be the pointer to the node's own value
+			rv := reflect.ValueOf(gotArg)
+			if !rv.IsValid() || rv.Kind() != reflect.Ptr || rv.IsNil() || rv.Type() != reflect.PointerTo(inner.GoType()) {
+				c.Violation("preprocess-argument|Validate", det(map[string]any{"received_type": fmt.Sprintf("%T", gotArg)}))
+				return
+			}
+			innerTests := 0
+			for _, ev := range rec.events {
+				if ev.kind == "pre" && ev.ctxVals["k1"] != "v-pre" {
+					c.Violation("callback-context-values|pre", det(map[string]any{"ctx": obs.Render(obs.Norm(ev.ctxVals))}))
+					return
+				}
+				if ev.node == inner && ev.kind == "test" {
+					innerTests++
+				}
+			}
+			if fail {
+				if len(out.Issues) != 1 || out.Issues[0].Path != path || innerTests != 0 {
+					c.Violation("preprocess-error-in-validate", det(map[string]any{"want": "exactly one issue at the node's path, wrapped schema skipped", "wrapped_schema_test_calls": innerTests}))
+					return
+				}
+			} else {
+				var got any = out.Dest
+				if place == 1 {
+					got = out.Dest.(map[string]any)["P"]
+				}
+				if len(out.Issues) != 0 || innerTests != 1 || !obs.Equal(got, witness) {
+					c.Violation("preprocess-success-in-validate", det(map[string]any{"value_after": obs.Render(out.Dest), "wrapped_schema_test_calls": innerTests}))
+					return
+				}
+			}
+			c.NonTrivial(fpf("prev|%s|%v|%d", k, fail, place))
+		}
+	}
 }
